@@ -181,6 +181,11 @@ def model_walk(steps, defines, env, out, cur, stop_at_include=None,
             model_walk(st["steps"], defines, env, out, lst, stop_at_include,
                        counter)
         elif op == "include":
+            if st.get("via"):
+                # '%include $NAME': the argument is expanded against the
+                # shared namespace like any value
+                if model_expand("$" + st["via"], defines, env) != st["ref"]:
+                    raise ModelFail("transport")   # some other target
             counter[0] += 1
             if stop_at_include is not None and counter[0] == stop_at_include:
                 raise ModelFail("transport")
@@ -230,7 +235,8 @@ def render(steps, url, store, k=None):
             sub = render(st["steps"], target, store)
             text = "".join(x + "\n" for x in sub)
             store[target] = text
-            lines.append("%include " + st["ref"])
+            lines.append("%include " + ("$" + st["via"] if st.get("via")
+                                         else st["ref"]))
     return lines
 
 
@@ -364,6 +370,17 @@ def structure(rng, steps, depth=0, k=None, in_section=False):
             body = structure(rng, body, depth + 1, k, in_section)
             node = {"op": "include", "ref": ref, "steps": body}
             out[i:j] = [node]
+            if rng.random() < 0.25:
+                # '%include $incN' with the definition somewhere before it
+                # (or, rarely, missing / after it: the include must fail)
+                via = "inc%d" % k[0]
+                node["via"] = rng.choice([via, via.upper()])
+                r = rng.random()
+                d = {"op": "define", "name": via, "value": ref}
+                if r < 0.8:
+                    out.insert(rng.randint(0, i), d)
+                elif r < 0.9:
+                    out.insert(rng.randint(i + 1, len(out)), d)
             if rng.random() < 0.15:
                 # the same fragment included a second time
                 pos = rng.randint(i + 1, len(out))
